@@ -295,6 +295,20 @@ func (r *Raft) onInstallSnapRequest(req *installSnapReq, c *conn) (rpcResult, er
 		return drain(success, nil)
 	}
 
+	// we already hold the snapshot's last entry, hence everything the snapshot
+	// covers: nothing to install. the entries are not yet committed/applied here
+	// (req.lastIndex > commitIndex), so the snapshot must not be stored either:
+	// compacting the log up to it would remove entries the fsm still has to apply
+	if r.storage.log.Contains(req.lastIndex) {
+		lastTerm, err := r.storage.getEntryTerm(req.lastIndex)
+		if err != nil {
+			return unexpectedErr, err
+		}
+		if lastTerm == req.lastTerm {
+			return drain(success, nil)
+		}
+	}
+
 	// store snapshot
 	sink, err := r.snaps.new(req.lastIndex, req.lastTerm, req.lastConfig)
 	if err != nil {
@@ -310,38 +324,22 @@ func (r *Raft) onInstallSnapRequest(req *installSnapReq, c *conn) (rpcResult, er
 		return unexpectedErr, opError(doneErr, "snapshotSink.done")
 	}
 
-	discardLog := true
-	if r.storage.log.Contains(meta.index) {
-		metaTerm, err := r.storage.getEntryTerm(meta.index)
-		if err != nil {
-			return unexpectedErr, err
-		}
-		termsMatched := metaTerm == meta.term
-		if termsMatched {
-			// remove <=meta.index, but retain following it
-			if err = r.compactLog(meta.index); err != nil {
-				return unexpectedErr, err
-			}
-			discardLog = false
-		}
+	// our log does not hold the snapshot's last entry: discard it
+	if err = r.storage.clearLog(); err != nil {
+		return unexpectedErr, err
 	}
-	if discardLog {
-		if err = r.storage.clearLog(); err != nil {
-			return unexpectedErr, err
-		}
 
-		// todo: dont wait for restoreFSM to complete
-		//       if restoreFSM fails panic and exit
-		//       if takeSnap req came meanwhile, reply inProgress(restoreFSM)
+	// todo: dont wait for restoreFSM to complete
+	//       if restoreFSM fails panic and exit
+	//       if takeSnap req came meanwhile, reply inProgress(restoreFSM)
 
-		// restore fsm from this snapshot
-		r.fsm.ch <- fsmRestoreReq{r.fsmRestoredCh}
-		r.commitIndex = r.snaps.index
+	// restore fsm from this snapshot
+	r.fsm.ch <- fsmRestoreReq{r.fsmRestoredCh}
+	r.commitIndex = r.snaps.index
 
-		// load snapshot config as cluster configuration
-		r.changeConfig(meta.config)
-		r.commitConfig()
-	}
+	// load snapshot config as cluster configuration
+	r.changeConfig(meta.config)
+	r.commitConfig()
 
 	return success, nil
 }
